@@ -169,9 +169,24 @@ func cmdCheck(args []string) int {
 			}
 			for _, c := range rep.UsedContracts {
 				usedContracts[c] = true
+				// contracts that come from /verif/contracts/extern are assumptions, whatever they are about (also the
+				// abstract contracts on in-repo interfaces)
+				if con := w.spec.Fns[c]; con != nil && con.Pkg == "extern" {
+					assumptions["assumed extern contract: "+c] = true
+				}
+				if con := w.spec.Dyn[c]; con != nil {
+					assumptions["assumed contract of a function value (dyn): "+c] = true
+				}
 			}
 			for _, f := range rep.Features {
 				assumptions[f] = true
+			}
+			if con := w.contractFor(fn); con != nil {
+				for _, rq := range con.Requires {
+					if strings.Contains(rq.Label, "assume") && hasStr(rq.Tags, *prop) {
+						assumptions["entry precondition assumed (no in-repo caller discharges it): "+shortFnKey(rep.Key)+": "+rq.Src] = true
+					}
+				}
 			}
 			for _, o := range rep.Obls {
 				if hasTag(o, *prop) || (o.Kind == "reach" || o.Kind == "cover") {
@@ -608,6 +623,15 @@ func (w *World) fnConcerns(fn *ssa.Function, prop string) bool {
 	e := newEngine(w, fn)
 	for _, kind := range []string{"nopanic", "lock", "term", "race", "reach", "contract"} {
 		if has(e.autoTags(kind, fn)) {
+			return true
+		}
+	}
+	return false
+}
+
+func hasStr(xs []string, x string) bool {
+	for _, y := range xs {
+		if y == x {
 			return true
 		}
 	}
